@@ -1,7 +1,436 @@
 /-
-  Property C17 — theorems about QEModel.C17 (stub; to be filled in).
+  Property C17 — root finders and maximisers honour their tolerance and status contracts:
+  theorems about the definitions of QEModel.C17 (the ones the driver executes), over an
+  arbitrary linearly ordered field `K` and an ARBITRARY function `f : K → K` (no continuity is
+  needed: "a sign change" is a pair of points with `f y · f x < 0`).
 -/
 import QEModel.C17
+import QEProofs.Lemmas.C17Basic
+import QEProofs.Lemmas.C17Open
+import QEProofs.Lemmas.C17Bracket
+import QEProofs.Lemmas.C17BrentMax
+import QEProofs.Lemmas.C17NM
 namespace QE.C17
+set_option linter.unusedSectionVars false
+
+section
+variable {K : Type} [Field K] [LinearOrder K] [IsStrictOrderedRing K]
+
+/-! ## `disp` : raising instead of reporting -/
+
+/-- `finish` never produces a `ValueError`; with `disp = true` it raises exactly when the run with
+    `disp = false` reports `converged = False`, and otherwise returns the same result. -/
+theorem finish_contract (R : Res K) :
+    (finish false R = .ok R) ∧
+    (R.conv = false → finish true R = .runtimeError) ∧
+    (R.conv = true → finish true R = .ok R) := by
+  unfold finish
+  refine ⟨by simp, fun h => by simp [h], fun h => by simp [h]⟩
+
+/-! ## newton / newton_halley / newton_secant : status contracts -/
+
+/-- `newton` raises `ValueError` exactly for `tol ≤ 0` or `maxiter < 1`. -/
+theorem newton_valueError_iff (f fp : K → K) (x0 tol : K) (maxiter : Int) (disp : Bool) :
+    newton f fp x0 tol maxiter disp = .valueError ↔ (tol ≤ 0 ∨ maxiter < 1) := by
+  unfold newton finish
+  by_cases h1 : tol ≤ 0
+  · simp [h1]
+  · by_cases h2 : maxiter < 1
+    · simp [h2]
+    · simp only [h1, h2, if_false, false_or, iff_false]
+      split <;> simp
+
+/-- **newton, status contract.** For valid parameters the result with `disp = false` is `ok r` where
+    * `converged = True` only through one of the two stopping criteria: `f root = 0`, or the last
+      Newton step `root = q − f q / f' q` was shorter than `tol`;
+    * `converged = False` only after all `maxiter` passes, or at a point with `f' = 0 ≠ f`;
+    * `iterations ≤ maxiter`, `function_calls ∈ {2·iterations, 2·iterations + 1}`;
+    and with `disp = true` the call raises `RuntimeError` iff that `r` has `converged = False`
+    (otherwise it returns the same `r`). -/
+theorem newton_status (f fp : K → K) (x0 tol : K) (maxiter : Int)
+    (htol : 0 < tol) (hmi : 1 ≤ maxiter) :
+    ∃ r, newton f fp x0 tol maxiter false = .ok r ∧
+      (r.conv = true → f r.root = 0 ∨
+        ∃ q, f q ≠ 0 ∧ fp q ≠ 0 ∧ r.root = q - f q / fp q ∧ |r.root - q| < tol) ∧
+      (r.conv = false → r.iters = maxiter.toNat ∨ (fp r.root = 0 ∧ f r.root ≠ 0)) ∧
+      r.iters ≤ maxiter.toNat ∧ 2 * r.iters ≤ r.calls ∧ r.calls ≤ 2 * r.iters + 1 ∧
+      (r.conv = false → newton f fp x0 tol maxiter true = .runtimeError) ∧
+      (r.conv = true → newton f fp x0 tol maxiter true = .ok r) := by
+  have h := newtonLoop_spec f fp tol maxiter.toNat 0 x0 0
+  simp only at h
+  obtain ⟨a, b, _, d, e, g⟩ := h
+  have hf := finish_contract (newtonLoop f fp tol maxiter.toNat 0 x0 0)
+  refine ⟨newtonLoop f fp tol maxiter.toNat 0 x0 0, ?_, a, ?_, by omega, by omega, by omega, ?_, ?_⟩
+  · unfold newton; rw [if_neg (not_le.mpr htol), if_neg (by omega)]; exact hf.1
+  · intro hc; rcases b hc with h | h
+    · left; omega
+    · right; exact h
+  · intro hc; unfold newton; rw [if_neg (not_le.mpr htol), if_neg (by omega)]; exact hf.2.1 hc
+  · intro hc; unfold newton; rw [if_neg (not_le.mpr htol), if_neg (by omega)]; exact hf.2.2 hc
+
+/-- non-vacuity: Newton on `x² − 2` from 2 converges through the step criterion in 4 passes,
+    and reports failure after 2 -/
+example : (match newton (fun x : Rat => x * x - 2) (fun x => 2 * x) 2 (1 / 1000) 50 true with
+    | .ok r => r.conv && r.iters == 4 && r.calls == 8 | _ => false) = true := by decide +kernel
+example : (match newton (fun x : Rat => x * x - 2) (fun x => 2 * x) 2 (1 / 1000) 2 false with
+    | .ok r => !r.conv && r.iters == 2 | _ => false) = true := by decide +kernel
+example : (match newton (fun x : Rat => x * x - 2) (fun x => 2 * x) 2 (1 / 1000) 2 true with
+    | .runtimeError => true | _ => false) = true := by decide +kernel
+/-- the `f' = 0` exit -/
+example : (match newton (fun x : Rat => x * x - 2) (fun x => 2 * x) 0 (1 / 1000) 50 false with
+    | .ok r => !r.conv && r.iters == 1 && r.calls == 2 | _ => false) = true := by decide +kernel
+
+theorem halley_valueError_iff (f fp fpp : K → K) (x0 tol : K) (maxiter : Int) (disp : Bool) :
+    halley f fp fpp x0 tol maxiter disp = .valueError ↔ (tol ≤ 0 ∨ maxiter < 1) := by
+  unfold halley finish
+  by_cases h1 : tol ≤ 0
+  · simp [h1]
+  · by_cases h2 : maxiter < 1
+    · simp [h2]
+    · simp only [h1, h2, if_false, false_or, iff_false]
+      split <;> simp
+
+/-- **newton_halley, status contract** (as `newton_status`, with Halley's step). -/
+theorem halley_status (f fp fpp : K → K) (x0 tol : K) (maxiter : Int)
+    (htol : 0 < tol) (hmi : 1 ≤ maxiter) :
+    ∃ r, halley f fp fpp x0 tol maxiter false = .ok r ∧
+      (r.conv = true → f r.root = 0 ∨
+        ∃ q, f q ≠ 0 ∧ fp q ≠ 0 ∧
+          r.root = q - (f q / fp q) / (1 - 1 / 2 * (f q / fp q) * fpp q / fp q) ∧ |r.root - q| < tol) ∧
+      (r.conv = false → r.iters = maxiter.toNat ∨ (fp r.root = 0 ∧ f r.root ≠ 0)) ∧
+      r.iters ≤ maxiter.toNat ∧ 2 * r.iters ≤ r.calls ∧ r.calls ≤ 2 * r.iters + 1 ∧
+      (r.conv = false → halley f fp fpp x0 tol maxiter true = .runtimeError) ∧
+      (r.conv = true → halley f fp fpp x0 tol maxiter true = .ok r) := by
+  have h := halleyLoop_spec f fp fpp tol maxiter.toNat 0 x0 0
+  simp only at h
+  obtain ⟨a, b, _, d, e, g⟩ := h
+  have hf := finish_contract (halleyLoop f fp fpp tol maxiter.toNat 0 x0 0)
+  refine ⟨halleyLoop f fp fpp tol maxiter.toNat 0 x0 0, ?_, a, ?_, by omega, by omega, by omega, ?_, ?_⟩
+  · unfold halley; rw [if_neg (not_le.mpr htol), if_neg (by omega)]; exact hf.1
+  · intro hc; rcases b hc with h | h
+    · left; omega
+    · right; exact h
+  · intro hc; unfold halley; rw [if_neg (not_le.mpr htol), if_neg (by omega)]; exact hf.2.1 hc
+  · intro hc; unfold halley; rw [if_neg (not_le.mpr htol), if_neg (by omega)]; exact hf.2.2 hc
+
+example : (match halley (fun x : Rat => x * x - 2) (fun x => 2 * x) (fun _ => 2) 2 (1 / 1000) 50 true with
+    | .ok r => r.conv && r.iters == 3 | _ => false) = true := by decide +kernel
+
+theorem secant_valueError_iff (f : K → K) (k1 k2 x0 tol : K) (maxiter : Int) (disp : Bool) :
+    secant f k1 k2 x0 tol maxiter disp = .valueError ↔ (tol ≤ 0 ∨ maxiter < 1) := by
+  unfold secant finish
+  by_cases h1 : tol ≤ 0
+  · simp [h1]
+  · by_cases h2 : maxiter < 1
+    · simp [h2]
+    · simp only [h1, h2, if_false, false_or, iff_false]
+      split <;> simp
+
+/-- **newton_secant, status contract.** `converged = True` is reported through exactly one of
+    * the secant step from `(a, b)` to `root` was shorter than `tol`, or
+    * the code's third exit: two successive iterates with **equal function values** `f a = f b`,
+      in which case the mid-point `(a+b)/2` is returned as "converged" — whether or not it is
+      anywhere near a root (for a non-zero constant `f` this exit is always taken; see the example);
+    `converged = False` only after all `maxiter` passes; `function_calls = iterations + 1` on the
+    converged exits and `maxiter + 2` otherwise; `disp = true` raises iff not converged. -/
+theorem secant_status (f : K → K) (k1 k2 x0 tol : K) (maxiter : Int)
+    (htol : 0 < tol) (hmi : 1 ≤ maxiter) :
+    ∃ r, secant f k1 k2 x0 tol maxiter false = .ok r ∧
+      (r.conv = true →
+        (∃ a b, f a = f b ∧ r.root = (a + b) / 2) ∨
+        (∃ a b, f b ≠ f a ∧ r.root = b - f b * (b - a) / (f b - f a) ∧ |r.root - b| < tol)) ∧
+      (r.conv = false → r.iters = maxiter.toNat ∧ r.calls = maxiter.toNat + 2) ∧
+      (r.conv = true → r.iters ≤ maxiter.toNat ∧ r.calls = r.iters + 1) ∧
+      (r.conv = false → secant f k1 k2 x0 tol maxiter true = .runtimeError) ∧
+      (r.conv = true → secant f k1 k2 x0 tol maxiter true = .ok r) := by
+  have h := secantLoop_spec f tol maxiter.toNat 0 x0 (secantP1 k1 k2 x0) 2
+  simp only at h
+  obtain ⟨a, b, _, d, e, g⟩ := h
+  have hf := finish_contract
+    (secantLoop f tol maxiter.toNat 0 x0 (secantP1 k1 k2 x0) (f x0) (f (secantP1 k1 k2 x0)) 2)
+  refine ⟨_, ?_, a, ?_, ?_, ?_, ?_⟩
+  · unfold secant; rw [if_neg (not_le.mpr htol), if_neg (by omega)]; exact hf.1
+  · intro hc; have := b hc; have := g hc; omega
+  · intro hc; have := e hc; omega
+  · intro hc; unfold secant; rw [if_neg (not_le.mpr htol), if_neg (by omega)]; exact hf.2.1 hc
+  · intro hc; unfold secant; rw [if_neg (not_le.mpr htol), if_neg (by omega)]; exact hf.2.2 hc
+
+/-- the equal-values exit on a constant non-zero function: "converged" at the mid-point of the two
+    starting points although there is no root at all -/
+example : (match secant (fun _ : Rat => 5) (10001 / 10000) (1 / 10000) 1 (1 / 1000) 50 true with
+    | .ok r => r.conv && r.iters == 1 && r.calls == 2 | _ => false) = true := by decide +kernel
+example : (match secant (fun x : Rat => x * x - 2) (10001 / 10000) (1 / 10000) 1 (1 / 1000) 50 true with
+    | .ok r => r.conv && r.iters == 4 && r.calls == 5 | _ => false) = true := by decide +kernel
+
+/-! ## bisect -/
+
+/-- parameter errors and the same-sign test: `ValueError` exactly when `xtol ≤ 0`, `maxiter < 1`
+    or `f a · f b > 0`. -/
+theorem bisect_valueError_iff (f : K → K) (a b xtol rtol : K) (maxiter : Int) (disp : Bool) :
+    bisect f a b xtol rtol maxiter disp = .valueError ↔ (xtol ≤ 0 ∨ maxiter < 1 ∨ 0 < f a * f b) := by
+  unfold bisect finish
+  by_cases h1 : xtol ≤ 0
+  · simp [h1]
+  · by_cases h2 : maxiter < 1
+    · simp [h2]
+    · by_cases h3 : 0 < f a * f b
+      · simp [h3]
+      · simp only [h1, h2, h3, if_false, false_or, iff_false]
+        split <;> split <;> simp
+
+/-- an end point with `f = 0` is returned at once (`b` wins when both are zeros): 0 iterations,
+    2 function calls, converged, also with `disp = true`. -/
+theorem bisect_endpoint (f : K → K) (a b xtol rtol : K) (maxiter : Int) (disp : Bool)
+    (hx : 0 < xtol) (hmi : 1 ≤ maxiter) (h0 : f a = 0 ∨ f b = 0) :
+    bisect f a b xtol rtol maxiter disp = .ok ⟨if f b = 0 then b else a, 2, 0, true⟩ := by
+  unfold bisect
+  have hs : ¬ 0 < f a * f b := by rcases h0 with h | h <;> simp [h]
+  rw [if_neg (not_le.mpr hx), if_neg (by omega)]
+  simp only [hs, if_false]
+  unfold bisectInterval finish
+  by_cases hb : f b = 0
+  · simp [hb]
+  · have ha : f a = 0 := by rcases h0 with h | h; exact h; exact absurd h hb
+    simp [hb, ha]
+
+/-- **bisect, bracket contract.** Valid parameters, `f a ≠ 0`, `f b ≠ 0`, `f a · f b ≤ 0`, `f` arbitrary.
+    With `disp = false` the call returns `ok r` and
+    * `converged = True` ⇒ `f root = 0`, or `root` is the mid-point of a bracket
+      `[root − d, root + d]` with a strict sign change and `|d| < xtol + rtol·|root|`; moreover
+      `root` lies between `a` and `b`, `1 ≤ iterations ≤ maxiter`, `function_calls = iterations + 2`;
+    * `converged = False` ⇒ all `maxiter` passes were used (`function_calls = maxiter + 2`) and the
+      tuple is the code's literal `(0.0, …, maxiter − 1, False)`;
+    * `disp = true` raises `RuntimeError` iff not converged, else returns the same `r`. -/
+theorem bisect_bracket (f : K → K) (a b xtol rtol : K) (maxiter : Int)
+    (hx : 0 < xtol) (hmi : 1 ≤ maxiter) (ha : f a ≠ 0) (hb : f b ≠ 0) (hs : f a * f b ≤ 0) :
+    ∃ r, bisect f a b xtol rtol maxiter false = .ok r ∧
+      (r.conv = true →
+        (f r.root = 0 ∨ ∃ d, |d| < xtol + rtol * |r.root| ∧ f (r.root - d) * f (r.root + d) < 0) ∧
+        (∃ t, 0 ≤ t ∧ t ≤ 1 ∧ r.root = a + t * (b - a)) ∧
+        1 ≤ r.iters ∧ r.iters ≤ maxiter.toNat ∧ r.calls = r.iters + 2) ∧
+      (r.conv = false → r.iters = maxiter.toNat - 1 ∧ r.root = 0 ∧ r.calls = maxiter.toNat + 2) ∧
+      (r.conv = false → bisect f a b xtol rtol maxiter true = .runtimeError) ∧
+      (r.conv = true → bisect f a b xtol rtol maxiter true = .ok r) := by
+  have hlt : f a * f b < 0 := lt_of_le_of_ne hs (mul_ne_zero ha hb)
+  have h := bisectLoop_spec f xtol rtol (f a) maxiter.toNat 0 a (b - a) 2
+    (mul_self_pos.mpr ha) (by rw [add_sub_cancel, mul_comm]; exact hlt)
+  simp only at h
+  obtain ⟨A, B⟩ := h
+  have hf := finish_contract (bisectLoop f xtol rtol (f a) maxiter.toNat 0 a (b - a) 2)
+  have hun : ∀ disp, bisect f a b xtol rtol maxiter disp
+      = finish disp (bisectLoop f xtol rtol (f a) maxiter.toNat 0 a (b - a) 2) := by
+    intro disp
+    unfold bisect
+    rw [if_neg (not_le.mpr hx), if_neg (by omega)]
+    simp only [not_lt.mpr hs, if_false]
+    unfold bisectInterval
+    simp [ha, hb]
+  refine ⟨_, by rw [hun]; exact hf.1, ?_, ?_, ?_, ?_⟩
+  · intro hc
+    obtain ⟨a1, a2, a3, a4, a5⟩ := A hc
+    exact ⟨a1, a2, by omega, by omega, by omega⟩
+  · intro hc
+    obtain ⟨b1, b2, b3⟩ := B hc
+    exact ⟨by omega, b2, by omega⟩
+  · intro hc; rw [hun]; exact hf.2.1 hc
+  · intro hc; rw [hun]; exact hf.2.2 hc
+
+/-- non-vacuity: `x² − 2` on `[0, 2]`, `xtol = 1/100`: converged after 8 passes at 181/128;
+    three passes are not enough -/
+example : (match bisect (fun x : Rat => x * x - 2) 0 2 (1 / 100) 0 100 true with
+    | .ok r => r.conv && r.iters == 8 && r.calls == 10 && r.root == 181 / 128 | _ => false) = true := by
+  decide +kernel
+example : (match bisect (fun x : Rat => x * x - 2) 0 2 (1 / 100) 0 3 false with
+    | .ok r => !r.conv && r.iters == 2 && r.calls == 5 && r.root == 0 | _ => false) = true := by
+  decide +kernel
+example : (match bisect (fun x : Rat => x * x + 2) 0 2 (1 / 100) 0 100 true with
+    | .valueError => true | _ => false) = true := by decide +kernel
+
+/-! ## brentq -/
+
+theorem brentq_valueError_iff (f : K → K) (a b xtol rtol : K) (maxiter : Int) (disp : Bool) :
+    brentq f a b xtol rtol maxiter disp = .valueError ↔ (xtol ≤ 0 ∨ maxiter < 1 ∨ 0 < f a * f b) := by
+  unfold brentq finish
+  by_cases h1 : xtol ≤ 0
+  · simp [h1]
+  · by_cases h2 : maxiter < 1
+    · simp [h2]
+    · by_cases h3 : 0 < f a * f b
+      · simp [h3]
+      · simp only [h1, h2, h3, if_false, false_or, iff_false]
+        split <;> split <;> simp
+
+theorem brentq_endpoint (f : K → K) (a b xtol rtol : K) (maxiter : Int) (disp : Bool)
+    (hx : 0 < xtol) (hmi : 1 ≤ maxiter) (h0 : f a = 0 ∨ f b = 0) :
+    brentq f a b xtol rtol maxiter disp = .ok ⟨if f b = 0 then b else a, 2, 0, true⟩ := by
+  unfold brentq
+  have hs : ¬ 0 < f a * f b := by rcases h0 with h | h <;> simp [h]
+  rw [if_neg (not_le.mpr hx), if_neg (by omega)]
+  simp only [hs, if_false]
+  unfold bisectInterval finish
+  by_cases hb : f b = 0
+  · simp [hb]
+  · have ha : f a = 0 := by rcases h0 with h | h; exact h; exact absurd h hb
+    simp [hb, ha]
+
+/-- **brentq, bracket contract.** Valid parameters, `f a ≠ 0`, `f b ≠ 0`, `f a · f b ≤ 0`, `f` arbitrary
+    (the invariant behind it — `[xcur, xblk]` always brackets a sign change and the stored values
+    are values of `f` — holds whatever interpolation step is chosen, see `brentqLoop_spec`).
+    With `disp = false` the call returns `ok r` and
+    * `converged = True` ⇒ `f root = 0`, or there is a point `y` with `f y · f root < 0`,
+      `|f root| ≤ |f y|` and `|y − root| < xtol + rtol·|root|`;
+      `1 ≤ iterations ≤ maxiter` and `function_calls = iterations + 1`
+      (the convergence test sits at the top of the pass, so `iterations` counts one more than
+      the evaluations made inside the loop);
+    * `converged = False` ⇒ all passes were used: `(0.0, maxiter + 2, maxiter − 1, False)`;
+    * `disp = true` raises `RuntimeError` iff not converged, else returns the same `r`. -/
+theorem brentq_bracket (f : K → K) (a b xtol rtol : K) (maxiter : Int)
+    (hx : 0 < xtol) (hmi : 1 ≤ maxiter) (ha : f a ≠ 0) (hb : f b ≠ 0) (hs : f a * f b ≤ 0) :
+    ∃ r, brentq f a b xtol rtol maxiter false = .ok r ∧
+      (r.conv = true →
+        (f r.root = 0 ∨
+          ∃ y, f y * f r.root < 0 ∧ |f r.root| ≤ |f y| ∧ |y - r.root| < xtol + rtol * |r.root|) ∧
+        1 ≤ r.iters ∧ r.iters ≤ maxiter.toNat ∧ r.calls = r.iters + 1) ∧
+      (r.conv = false → r.iters = maxiter.toNat - 1 ∧ r.root = 0 ∧ r.calls = maxiter.toNat + 2) ∧
+      (r.conv = false → brentq f a b xtol rtol maxiter true = .runtimeError) ∧
+      (r.conv = true → brentq f a b xtol rtol maxiter true = .ok r) := by
+  have hlt : f a * f b < 0 := lt_of_le_of_ne hs (mul_ne_zero ha hb)
+  have hinv : BQInv f (⟨a, b, 0, f a, f b, 0, 0, 0⟩ : BQ K) := ⟨rfl, rfl, Or.inl hlt⟩
+  have h := brentqLoop_spec f xtol rtol maxiter.toNat 0 _ 2 hinv
+  simp only at h
+  obtain ⟨A, B⟩ := h
+  have hf := finish_contract (brentqLoop f xtol rtol maxiter.toNat 0 ⟨a, b, 0, f a, f b, 0, 0, 0⟩ 2)
+  have hun : ∀ disp, brentq f a b xtol rtol maxiter disp
+      = finish disp (brentqLoop f xtol rtol maxiter.toNat 0 ⟨a, b, 0, f a, f b, 0, 0, 0⟩ 2) := by
+    intro disp
+    unfold brentq
+    rw [if_neg (not_le.mpr hx), if_neg (by omega)]
+    simp only [not_lt.mpr hs, if_false]
+    unfold bisectInterval
+    simp [ha, hb]
+  refine ⟨_, by rw [hun]; exact hf.1, ?_, ?_, ?_, ?_⟩
+  · intro hc
+    obtain ⟨a1, a3, a4, a5⟩ := A hc
+    exact ⟨a1, by omega, by omega, by omega⟩
+  · intro hc
+    obtain ⟨b1, b2, b3⟩ := B hc
+    exact ⟨by omega, b2, by omega⟩
+  · intro hc; rw [hun]; exact hf.2.1 hc
+  · intro hc; rw [hun]; exact hf.2.2 hc
+
+example : (match brentq (fun x : Rat => x * x - 2) 0 2 (1 / 100) 0 100 true with
+    | .ok r => r.conv && r.iters == 5 && r.calls == 6 && r.root == 5939 / 4200 | _ => false) = true := by
+  decide +kernel
+example : (match brentq (fun x : Rat => x * x - 2) 0 2 (1 / 100) 0 2 false with
+    | .ok r => !r.conv && r.iters == 1 && r.calls == 4 && r.root == 0 | _ => false) = true := by
+  decide +kernel
+
+/-! ## brent_max -/
+
+/-- `brent_max` raises (`none`) exactly when `a < b` fails. -/
+theorem brentMax_none_iff (f : K → K) (sqrtEps gm xtol a b : K) (maxiter : Int) :
+    brentMax f sqrtEps gm xtol a b maxiter = none ↔ ¬ a < b := by
+  unfold brentMax
+  split <;> simp_all
+
+/-- **brent_max on a strictly unimodal function** (mode `m ∈ [a, b]`, `xtol > 0`, `√ε ≥ 0`; the
+    golden-section constant is arbitrary). The call returns `(xf, fval, status_flag, num)` with
+    * `fval = f xf` (the reported value is the function value at the reported point);
+    * `status_flag = 0` ⇒ `|xf − m| ≤ tol2 = 2·(√ε·|xf| + xtol/3)`: the returned point is within
+      `tol2` of the maximiser (this is what the loop test delivers; it is `≤ xtol` only when
+      `√ε·|xf| ≤ xtol/6`, so "within xtol" in the property is read as "within tol2");
+    * `status_flag ∈ {0, 1}`, and `status_flag = 1` ⇒ `num ≥ maxiter` (for `maxiter ≥ 2`);
+    * `1 ≤ num ≤ max maxiter 2`. -/
+theorem brentMax_unimodal (f : K → K) (sqrtEps gm xtol a b m : K) (maxiter : Int)
+    (hu : Unimodal f m) (hse : 0 ≤ sqrtEps) (hx : 0 < xtol) (hab : a < b) (ham : a ≤ m) (hmb : m ≤ b) :
+    ∃ xf fval flag num, brentMax f sqrtEps gm xtol a b maxiter = some (xf, fval, flag, num) ∧
+      fval = f xf ∧
+      (flag = 0 → |xf - m| ≤ 2 * (sqrtEps * |xf| + xtol / 3)) ∧
+      (flag = 0 ∨ flag = 1) ∧
+      (flag = 1 → 2 ≤ maxiter → maxiter ≤ (num : Int)) ∧
+      1 ≤ num ∧ (num : Int) ≤ max maxiter 2 := by
+  have hinit : BMInv f sqrtEps xtol m (bmInit f sqrtEps gm xtol a b) :=
+    ⟨rfl, ham, hmb, by simp [bmInit, absv_eq_abs, three_eq], by simp [bmInit, two_eq], by simp [bmInit, half_eq]⟩
+  have h := bmLoop_spec f sqrtEps gm xtol m maxiter hu hse hx (max (maxiter - 1).toNat 1) _ hinit
+  simp only at h
+  obtain ⟨hinv, h0, h01, h1, hlo, hhi, hmx⟩ := h
+  have hn1 : (bmInit f sqrtEps gm xtol a b).num = 1 := rfl
+  refine ⟨_, _, _, _, by unfold brentMax; rw [if_pos hab], ?_, ?_, h01, ?_, by omega, ?_⟩
+  · rw [hinv.hfx]; ring
+  · intro hf
+    have hb := h0 hf
+    rw [hinv.htol2, hinv.htol1, hinv.hxm] at hb
+    have h1' := (abs_le.mp hb).1
+    have h2' := (abs_le.mp hb).2
+    have := hinv.ham
+    have := hinv.hmb
+    rw [abs_le]
+    constructor <;> linarith
+  · intro hf h2
+    rcases h1 hf with h | h
+    · exact h
+    · rw [h, hn1]
+      have : max (maxiter - 1).toNat 1 = (maxiter - 1).toNat := max_eq_left (by omega)
+      rw [this]; omega
+  · by_cases he : (bmLoop f sqrtEps gm xtol maxiter (max (maxiter - 1).toNat 1) (bmInit f sqrtEps gm xtol a b)).1.num
+        = (bmInit f sqrtEps gm xtol a b).num
+    · rw [he, hn1]; exact le_trans (by norm_num) (le_max_right _ _)
+    · have := hmx he
+      rw [hn1] at this
+      simpa using this
+
+/-- non-vacuity: `−(x−1)²` is strictly unimodal with mode 1, and the model run on `[-2, 3]`
+    (with rational stand-ins 1/67108864 for √ε and 3/8 for the golden-section constant) ends
+    normally within `tol2` of 1 -/
+example : Unimodal (fun x : Rat => -((x - 1) * (x - 1))) 1 := by
+  constructor
+  · intro u v h1 h2; nlinarith
+  · intro u v h1 h2; nlinarith
+example : (match brentMax (fun x : Rat => -((x - 1) * (x - 1))) (1 / 67108864) (3 / 8) (1 / 1000) (-2) 3 500 with
+    | some (xf, _, flag, num) => flag == 0 && decide (absv (xf - 1) ≤ 1 / 1000) && num == 6
+    | none => false) = true := by decide +kernel
+
+end
+
+/-! ## nelder_mead : bookkeeping (any scalar type, any objective, any bounds) -/
+
+section nm
+variable {α : Type} [Zero α] [One α] [Add α] [Sub α] [Mul α] [Div α] [Neg α]
+  [LT α] [LE α] [DecidableLT α] [DecidableLE α] [BEq α]
+
+/-- **nelder_mead, bookkeeping contract.** Whatever the objective, bounds, tolerances and
+    iteration cap: the result is read off a final state `s` whose `f_val` array holds
+    `_neg_bounded_fun` of every current vertex (`-f(v)` inside the bounds, `+inf` outside) and whose
+    simplex still has `n+1` rows; the returned `x` is row `b = sort_ind[0]` of the returned
+    `final_simplex`, and the returned `fun` is `-f_val[b]`, i.e. (when `b` is a valid row)
+    `-_neg_bounded_fun(x)` — the function value at `x` if `x` is inside the bounds.
+    (This is the part of the property that survives the literal re-sorting rule of the shrink step,
+    `sort_ind[1:] = f_val[sort_ind[1:]].argsort() + 1`, which stores positions, not vertex indices;
+    that `sort_ind` stays a sorting permutation is NOT claimed.) -/
+theorem nelderMead_bookkeeping (f : List α → α) (P : NMP α) (k105 zdelt : α)
+    (bounds : List (α × α)) (x0 : List α) (maxIter : Nat) :
+    ∃ (s : NM α) (b : Nat) (fail : Bool),
+      nelderMead f P k105 zdelt bounds x0 maxIter
+        = (s.verts.getD b [], -(s.fval.getD b 0), !fail, s.nit, s.verts) ∧
+      s.fval = s.verts.map (negF f P.pinf bounds) ∧
+      s.verts.length = x0.length + 1 ∧
+      (b < s.verts.length → s.fval.getD b 0 = negF f P.pinf bounds (s.verts.getD b [])) := by
+  have h := nmLoop_ok f P bounds _ maxIter (maxIter + 1) _
+    (nmInit_ok f P bounds (initSimplex k105 zdelt x0))
+  rw [initSimplex_length] at h
+  refine ⟨_, _, _, rfl, h.1, h.2, ?_⟩
+  intro hb
+  rw [h.1]
+  exact getD_map_of_lt _ _ _ _ _ hb
+
+/-- non-vacuity / the reported finding as a model run: on `f(x) = −1/2 − (49/16)(x − 9/4)²` from
+    `x0 = 5/8` the exact-arithmetic model stops with `success` after 8 passes at `71/32 = 2.21875`,
+    the two vertices being symmetric about the maximiser `9/4` -/
+example : (match nelderMead (quadObj [[(49 / 16 : Rat)]] [9 / 4] (-1 / 2))
+      ⟨1, 2, 1 / 2, 1 / 2, 1 / 10000000000, 1 / 10000000000, 1000000⟩ (21 / 20) (1 / 4000) [] [5 / 8] 1000 with
+    | (x, _, ok, nit, verts) => ok && nit == 8 && x == [71 / 32] && verts == [[71 / 32], [73 / 32]]) = true := by
+  decide +kernel
+
+end nm
 
 end QE.C17
